@@ -1,0 +1,18 @@
+//go:build verif
+
+package masswallet
+
+import (
+	"github.com/massnetorg/mass-core/massutil"
+	"github.com/massnetorg/mass-core/wire"
+)
+
+// VerifAmountToTxOut exposes amountToTxOut to the verification harness.
+func VerifAmountToTxOut(encodedAddr string, amount massutil.Amount) (*wire.TxOut, error) {
+	return amountToTxOut(encodedAddr, amount)
+}
+
+// VerifConstructStakingTxOut exposes constructStakingTxOut to the verification harness.
+func VerifConstructStakingTxOut(outputs []*StakingTxOut, mtx *wire.MsgTx) error {
+	return constructStakingTxOut(outputs, mtx)
+}
